@@ -309,7 +309,60 @@ def oracle_order(c):
     return {"nt": list(c["ids"]) != sorted(c["ids"]), "cls": ["builder" if c["builder"] else "ctor"]}
 
 
+# ------------------------------------------------------------------------------ a transition depends only on (key, tuning, model state)
+def gen_purity():
+    from hypothesis import strategies as st
+
+    return st.fixed_dictionaries({"kind": st.sampled_from(["rw", "iwls", "nuts", "hmc", "mh", "gibbs"]), "keys": st.sampled_from([["beta"], ["shift"], ["beta", "shift"], ["sigma_transformed"]]),
+                                  "step": st.sampled_from([0.3, 0.8]), "liesel": st.booleans(), "seed": st.integers(0, 10**6), "n_prev": st.integers(1, 3),
+                                  "delta": st.sampled_from([0.5, -1.0, 2.0])})
+
+
+def oracle_purity(c):
+    """Each kernel starts from the model state left by its predecessor: a kernel state initialised (and stepped) on a DIFFERENT model state and one
+    initialised on the current model state carry the same tuning, so the same key and model state must give the same transition."""
+    from liesel.goose.epoch import EpochConfig as EC
+
+    if c["liesel"]:
+        model, params, derived = liesel_model(c["seed"])
+        iface = gs.LieselInterface(model)
+        st_b = model.state
+    else:
+        iface, params, derived = dict_model(c["seed"])
+        st_b = {"beta": jnp.zeros(2, dtype=jnp.float32), "sigma_transformed": jnp.float32(0.0), "shift": jnp.float32(0.0)}
+    others = [p for p in params if p not in c["keys"]]
+    # state A differs from state B only in blocks the kernel does NOT own (what a predecessor kernel would have changed)
+    pos_b = iface.extract_position(others, st_b)
+    st_a = iface.update_state({k: v + jnp.float32(c["delta"]) for k, v in pos_b.items()}, st_b)
+    ker = make_inner({"keys": c["keys"], "kind": c["kind"], "step": c["step"]}, iface)
+    ker.set_model(iface)
+    epoch = EC(EpochType.BURNIN, 10, 1, None).to_state(1, 1)
+    key0, key = jax.random.split(jax.random.PRNGKey(c["seed"]))
+    # history 1: initialised on A, a few transitions while the other blocks sit at A's values, then the predecessor moves them to B's values
+    ks1 = ker.init_state(key0, st_a)
+    cur = st_a
+    for i in range(c["n_prev"]):
+        out = ker.transition(jax.random.fold_in(key0, i), ks1, cur, epoch)
+        ks1, cur = out.kernel_state, out.model_state
+    own_now = iface.extract_position(c["keys"], cur)
+    st_now = iface.update_state(dict(own_now), st_b)                 # own block as left by the kernel, other blocks as left by the "predecessor"
+    # history 2: a fresh kernel state initialised directly on that model state
+    ks2 = ker.init_state(key0, st_now)
+    o1 = ker.transition(key, ks1, st_now, epoch)
+    o2 = ker.transition(key, ks2, st_now, epoch)
+    from vlib.lz import tree_equal_bits
+
+    p1, p2 = iface.extract_position(params, o1.model_state), iface.extract_position(params, o2.model_state)
+    same = tree_equal_bits(dict(p1), dict(p2)) and np.array_equal(np.asarray(o1.info.acceptance_prob), np.asarray(o2.info.acceptance_prob), equal_nan=True)
+    require(bool(same), "transition-depends-on-kernel-history-not-on-incoming-state:" + c["kind"],
+            lambda: f"same key, same tuning, same incoming model state: positions {jax.tree_util.tree_map(lambda x: np.asarray(x).tolist(), dict(p1))} vs "
+                    f"{jax.tree_util.tree_map(lambda x: np.asarray(x).tolist(), dict(p2))}, acceptance {float(o1.info.acceptance_prob)} vs {float(o2.info.acceptance_prob)}; {c}")
+    return {"nt": bool(others), "cls": [c["kind"], "liesel" if c["liesel"] else "dict"]}
+
+
 SUBS = [
     Sub("composition", oracle, gen=gen, n={"quick": 32, "thorough": 500}, shrink_calls=10, min_per_shard=2, what="probe-wrapped built-in kernels: order, threading, isolation, rejection, coherence"),
+    Sub("kernel_purity", oracle_purity, gen=gen_purity, n={"quick": 48, "thorough": 600}, shrink_calls=10,
+        what="same key + tuning + incoming model state => same transition, whatever the kernel saw before (no model-dependent caches in kernel states)"),
     Sub("order", oracle_order, gen=gen_order, n={"quick": 24, "thorough": 200}, shrink_calls=10, what="deterministic order-sensitive Gibbs kernels with non-alphabetical identifiers"),
 ]
